@@ -45,7 +45,9 @@ Node* N = nullptr;
 int64_t T0 = 0;
 int MODE = 1;
 
-CTransactionRef G, Gb, Gs, Gx, P, Pb, Ps, Px;     // P and its malleated copies only in mode 2
+CTransactionRef G, Gb, Gs, Gx, P, Pb, Ps, Px, P2;   // P2: second parent, mode 3 only
+std::vector<std::pair<std::string, CTransactionRef>> NAMED_TX; // for the canonical key
+std::vector<CTransactionRef> PARENTS;     // P and its malleated copies only in mode 2
 enum { PA = 0, PH = 1, PT = 2, PF = 9 };
 const char* peer_name(int p) { return p == PA ? "A" : p == PH ? "H" : p == PT ? "T" : "F"; }
 
@@ -78,7 +80,7 @@ CTransactionRef WithWitness(const CTransactionRef& base, const std::vector<std::
 
 std::string describe(const std::string& hist)
 {
-    std::string s = "# mode " + std::to_string(MODE) + (MODE == 1 ? " (G spends a confirmed coin)" : " (G spends output 0 of the unconfirmed parent P)") + "\n";
+    std::string s = "# mode " + std::to_string(MODE) + (MODE == 1 ? " (G spends a confirmed coin)" : MODE == 2 ? " (G spends output 0 of the unconfirmed parent P)" : " (G spends outputs of two unconfirmed parents P1, P2; the malleated copy M=Gb sorts before G by wtxid)") + "\n";
     for (unsigned char c : hist) s += std::to_string((int)c) + " " + OPS[c].label + "\n";
     return s;
 }
@@ -86,7 +88,7 @@ std::string describe(const std::string& hist)
 // the same history without those copies (the property speaks about what a copy *causes*).
 std::vector<std::pair<std::string, std::string>> g_fails;
 void fail(const std::string& key, const std::string& what, const std::string&) { g_fails.emplace_back(key, what); }
-bool IsCopyOp(const Op& o) { return (o.t == DEL && ((o.x >= 1 && o.x <= 3) || o.x >= 5)) || (o.t == ANN && o.x == 2); }
+bool IsCopyOp(const Op& o) { return (o.t == DEL && ((o.x >= 1 && o.x <= 3) || (o.x >= 5 && o.x <= 7))) || (o.t == ANN && o.x == 2); }
 uint64_t g_baseline_fail;
 constexpr int N_VARIANTS = 8;
 std::string g_baseline_sample;
@@ -200,7 +202,7 @@ std::string Observe(Wiring& w)
 {
     std::string k;
     k += "pool:";
-    for (auto& t : {std::pair<const char*, CTransactionRef>{"G", G}, {"Gb", Gb}, {"Gx", Gx}, {"P", P}}) if (t.second && InPool(t.second)) k += std::string(t.first) + ",";
+    for (auto& t : NAMED_TX) if (t.second && InPool(t.second)) k += t.first + ",";
     if (N->pool().exists(G->GetHash()) && !InPool(G) && !InPool(Gb) && !InPool(Gx)) k += "Gs,";
     k += " orph:";
     {
@@ -277,10 +279,12 @@ std::string Probe(Wiring& w, const std::string& hist)
     // 4
     auto r = w.Tx(PF, G);
     if (!r && !g_in_orphanage) fail("C64-not-validated", "G delivered by the announcing peer was dropped without validation (treated as already known)", hist);
-    if (MODE == 2 && !InPool(G)) {
+    if (MODE >= 2 && !InPool(G)) {
         g_probe_orphan_path++;
-        if (!InPool(P)) (void)w.Tx(PF, P);
-        if (!InPool(P)) fail("C64-parent-not-accepted", "valid parent P was not accepted", hist);
+        for (auto& par : PARENTS) {
+            if (!InPool(par)) (void)w.Tx(PF, par);
+            if (!InPool(par)) fail("C64-parent-not-accepted", "a valid parent was not accepted", hist);
+        }
         for (int round = 0; round < 8; round++) {
             bool any = false;
             for (int p : {PA, PH, PT, PF}) if (w.connected.count(p)) any |= w.OrphanWork(p);
@@ -291,7 +295,7 @@ std::string Probe(Wiring& w, const std::string& hist)
             (void)w.Tx(PF, G);
         }
     }
-    if (!InPool(G)) fail("C64-not-accepted", std::string("the genuine transaction G is not in the mempool after being delivered") + (MODE == 2 ? " together with its parent" : ""), hist);
+    if (!InPool(G)) fail("C64-not-accepted", std::string("the genuine transaction G is not in the mempool after being delivered") + (MODE >= 2 ? " together with its parent(s)" : ""), hist);
     else g_probe_accept++;
     return sig;
 }
@@ -311,7 +315,7 @@ bool replay_raw(const std::string& hist, std::string& key, int variant = 0, bool
         if (o.t != CLK && o.t != BLOCK && o.t != REORG && !w.connected.count(o.peer)) { if (last) return false; continue; }
         switch (o.t) {
         case DEL: {
-            CTransactionRef tx = o.x == 0 ? G : o.x == 1 ? Gb : o.x == 2 ? Gs : o.x == 3 ? Gx : o.x == 4 ? P : o.x == 5 ? Pb : o.x == 6 ? Ps : Px;
+            CTransactionRef tx = o.x == 0 ? G : o.x == 1 ? Gb : o.x == 2 ? Gs : o.x == 3 ? Gx : o.x == 4 ? P : o.x == 5 ? Pb : o.x == 6 ? Ps : o.x == 7 ? Px : P2;
             if (InPool(G)) { if (last) return false; break; } // G already accepted: nothing left to attack
             (void)w.Tx(o.peer, tx);
             break;
@@ -407,6 +411,46 @@ void BuildUniverse(int mode)
     const std::vector<unsigned char> wsb(ws.begin(), ws.end());
     const CScript wrong = OpTrueScript();
     const std::vector<unsigned char> wrongb(wrong.begin(), wrong.end());
+    P2 = nullptr;
+    if (mode == 3) {
+        // two unconfirmed parents; G spends P1:0 (OP_DROP OP_TRUE) and P2:0 (OP_TRUE). One malleated copy M (witness script
+        // mismatch on input 0), chosen so that wtxid(M) < wtxid(G): the orphanage keeps the spenders of an outpoint ordered by wtxid.
+        Pb = Ps = Px = nullptr;
+        P = MakeTransactionRef(MakeTx({{base_coin[0]}}, {{base_val[0] - fee, DropTrueSpk()}}));
+        P2 = MakeTransactionRef(MakeTx({{base_coin[1]}}, {{base_val[1] - fee, OpTrueSpk()}}));
+        CTransactionRef base3 = MakeTransactionRef(MakeTx({{COutPoint(P->GetHash(), 0), 0xffffffff, false}, {COutPoint(P2->GetHash(), 0)}}, {{base_val[0] + base_val[1] - 3 * fee, OpTrueSpk()}}));
+        G = WithWitness(base3, {{1}, wsb});
+        Gb = nullptr;
+        for (int k = 1; k < 256 && !Gb; k++) {
+            CTransactionRef m = WithWitness(base3, {{(unsigned char)k}, wrongb});
+            if (m->GetWitnessHash().ToUint256() < G->GetWitnessHash().ToUint256()) Gb = m;
+        }
+        if (!Gb || !(Gb->GetWitnessHash().ToUint256() < G->GetWitnessHash().ToUint256()) || Gb->GetHash() != G->GetHash()) { printf("HARNESS-ERROR property=C64 mode 3: no malleated copy with wtxid(M) < wtxid(G)\n"); exit(2); }
+        CMutableTransaction st(*base3);
+        for (auto& in : st.vin) in.scriptWitness.SetNull();
+        Gs = MakeTransactionRef(st);
+        Gx = WithWitness(base3, {std::vector<unsigned char>(81, 7), wsb});
+        UNIVERSE = {{"G", G->GetWitnessHash().ToUint256()}, {"txid", G->GetHash().ToUint256()}, {"M", Gb->GetWitnessHash().ToUint256()},
+                    {"P1", P->GetWitnessHash().ToUint256()}, {"P1txid", P->GetHash().ToUint256()}, {"P2", P2->GetWitnessHash().ToUint256()}, {"P2txid", P2->GetHash().ToUint256()}};
+        NAMED_TX = {{"G", G}, {"M", Gb}, {"P1", P}, {"P2", P2}};
+        PARENTS = {P, P2};
+        auto add = [&](OpT t, int peer, int x, const std::string& l) { OPS.push_back(Op{t, peer, x, l}); };
+        add(DEL, PA, 1, "A delivers M (same txid as G, witness script mismatch, wtxid(M) < wtxid(G))");
+        add(DEL, PH, 0, "H delivers G");
+        add(DEL, PH, 4, "H delivers P1");
+        add(DEL, PH, 8, "H delivers P2");
+        add(DEL, PA, 4, "A delivers P1");
+        add(DEL, PA, 8, "A delivers P2");
+        add(ANN, PH, 0, "H announces wtxid(G)");
+        add(ANN, PA, 0, "A announces wtxid(G)");
+        add(ANN, PA, 2, "A announces wtxid(M)");
+        add(ORPH, PA, 0, "orphan work for A");
+        add(ORPH, PH, 0, "orphan work for H");
+        add(ORPH, PT, 0, "orphan work for T");
+        add(DISC, PA, 0, "A disconnects");
+        add(CLK, -1, 2, "clock +2s");
+        return;
+    }
     if (mode == 1) {
         P = Pb = Ps = Px = nullptr;
         spend = drop_coin[0];
@@ -427,6 +471,9 @@ void BuildUniverse(int mode)
     Gs = base;
     Gx = WithWitness(base, {std::vector<unsigned char>(81, 7), wsb});
     UNIVERSE = {{"G", G->GetWitnessHash().ToUint256()}, {"txid", G->GetHash().ToUint256()}, {"Gb", Gb->GetWitnessHash().ToUint256()}, {"Gx", Gx->GetWitnessHash().ToUint256()}};
+    NAMED_TX = {{"G", G}, {"Gb", Gb}, {"Gx", Gx}, {"P", P}};
+    PARENTS.clear();
+    if (P) PARENTS.push_back(P);
     if (P) for (auto& u : {Named{"P", P->GetWitnessHash().ToUint256()}, Named{"Ptxid", P->GetHash().ToUint256()}, Named{"Pb", Pb->GetWitnessHash().ToUint256()}, Named{"Px", Px->GetWitnessHash().ToUint256()}}) UNIVERSE.push_back(u);
 
     auto add = [&](OpT t, int peer, int x, const std::string& l) { OPS.push_back(Op{t, peer, x, l}); };
@@ -579,6 +626,13 @@ bool CheckUniverse()
             ok = false;
         }
     };
+    if (MODE == 3) {
+        expect("G without parents", G, false, TxValidationResult::TX_MISSING_INPUTS);
+        for (auto& par : PARENTS) {
+            auto r = N->SubmitTx(par);
+            if (r.m_result_type != MempoolAcceptResult::ResultType::VALID) { printf("HARNESS-ERROR property=C64 parent rejected: %s\n", r.m_state.ToString().c_str()); return false; }
+        }
+    }
     if (MODE == 2) {
         expect("G without parent", G, false, TxValidationResult::TX_MISSING_INPUTS);
         expect("Pb", Pb, false, TxValidationResult::TX_NOT_STANDARD);
@@ -610,6 +664,7 @@ int run()
     hb::describer() = describe;
     const int depth1 = vx::thorough() ? 12 : 6, depth2 = vx::thorough() ? 7 : 4;
     const int de = getenv("C64_DE") ? atoi(getenv("C64_DE")) : (vx::thorough() ? 4 : 3);
+    const int d3 = getenv("C64_D3") ? atoi(getenv("C64_D3")) : (vx::thorough() ? 8 : 6);
     const int d1 = getenv("C64_D1") ? atoi(getenv("C64_D1")) : depth1, d2 = getenv("C64_D2") ? atoi(getenv("C64_D2")) : depth2;
 
     if (!vx::ctx().replay.empty()) {
@@ -631,13 +686,13 @@ int run()
     uint64_t states = 0, transitions = 0;
     bool complete = true;
     std::string levels;
-    int done[3] = {0, 0, 0};
-    for (int mode = 1; mode <= 2; mode++) {
+    int done[4] = {0, 0, 0, 0};
+    for (int mode = 1; mode <= 3; mode++) {
         BuildUniverse(mode);
         if (!CheckUniverse()) return 2;
         hb::Bfs bfs;
         bfs.nops = (int)OPS.size();
-        bfs.max_depth = mode == 1 ? d1 : d2;
+        bfs.max_depth = mode == 1 ? d1 : mode == 2 ? d2 : d3;
         bfs.replay = replay;
         int nsamples = 0;
         bfs.on_new_state = [&](const std::string& h, int d) {
@@ -656,7 +711,7 @@ int run()
         levels += "mode" + std::to_string(mode) + ": ";
         for (auto v : bfs.level_states) levels += std::to_string(v) + " ";
         if (!bfs.complete) { complete = false; break; }
-        ExploreE2E(de);
+        if (mode <= 2) ExploreE2E(de);
         if (!E.exhaustive) { complete = false; break; }
     }
     states += g_e2e_hist;
@@ -669,6 +724,8 @@ int run()
     E.set("mode2_depth_completed", (uint64_t)done[2]);
     E.set("mode1_depth_target", (uint64_t)d1);
     E.set("mode2_depth_target", (uint64_t)d2);
+    E.set("mode3_depth_completed", (uint64_t)done[3]);
+    E.set("mode3_depth_target", (uint64_t)d3);
     E.set_str("new_states_per_depth", levels);
     E.set("e2e_depth", (uint64_t)de);
     E.set("e2e_histories", g_e2e_hist);
@@ -697,6 +754,7 @@ int run()
     E.assume("states whose hidden request-tracker timing differs but yields the same getdata schedule under the probe are merged (observational equivalence)");
     if (!g_baseline_sample.empty()) E.sample("NOT a violation of this property (no malleated copy involved): " + g_baseline_sample);
     E.assume("a probe failure counts only if the same history with the malleated deliveries/announcements removed passes the probe under each of 8 seeds of the node's internal randomness (the property is about what a copy causes, not about which announcer a coin flip assigns orphan work to)");
+    E.assume("mode 3: G spends outputs of two unconfirmed parents P1 and P2; one malleated copy M (witness script mismatch) chosen with wtxid(M) < wtxid(G) (the orphanage orders the spenders of an outpoint by wtxid); events: deliver M (A), G (H), P1/P2 (A or H), announce wtxid(G) (A, H) / wtxid(M) (A), orphan work per peer, A disconnects, clock +2s; no end-to-end stage in this mode");
     E.assume("mode 1: G spends a confirmed coin; mode 2: G spends the unconfirmed, initially unknown parent P (orphan forms of all copies)");
     if (complete && vx::rep().violations == 0 && (g_e2e_accept == 0 || g_e2e_getdata_fast == 0)) { printf("HARNESS-ERROR property=C64 vacuous end-to-end stage\n"); vx::write_evidence(); return 2; }
     if (complete && vx::rep().violations == 0)
